@@ -16,6 +16,12 @@ pub struct RawOpt {
 }
 extern "C" {
     pub fn cv_box_release(b: *mut c_void);
+    pub fn cv_box_make(out: *mut c_void, storage: *mut u64, v: u64, owned: i32);
+    pub fn cv_box_freed() -> usize;
+    pub fn cv_box_freed_ptr() -> *const c_void;
+    pub fn cv_vec_make(v: *mut c_void);
+    pub fn cv_vec_stat(out: *mut CvVecStat);
+    pub fn cv_cb_make(cb: *mut c_void, st: *mut CvCbState);
     pub fn cv_box_instance(b: *const c_void) -> *const c_void;
     pub fn cv_arc_clone(a: *const c_void) -> RawArc;
     pub fn cv_arc_release(a: *mut c_void);
@@ -52,6 +58,26 @@ extern "C" {
     pub fn cv_res816_tag(r: *const c_void) -> u32;
     pub fn cv_res816_ok(r: *const c_void) -> u8;
     pub fn cv_res816_err(r: *const c_void) -> u16;
+}
+
+/// what the C side saw of a vector it made (cview.c: cv_vecstat)
+#[repr(C)]
+#[derive(Default, Debug, Clone, Copy)]
+pub struct CvVecStat {
+    pub reserves: usize,
+    pub drops: usize,
+    pub dropped_len: usize,
+    pub dropped_cap: usize,
+    pub dropped_data: usize,
+    pub live_blocks: usize,
+}
+/// state of a callback built by the C side (cview.c: cv_cb_state)
+#[repr(C)]
+pub struct CvCbState {
+    pub got: [u64; 32],
+    pub n: usize,
+    pub stop: usize,
+    pub calls: usize,
 }
 
 /// state of an iterator built by the C side (cview.c: cv_arr_state)
